@@ -74,8 +74,8 @@ def ledger(cert_doc, keys_doc, root_hex):
     r = att_ledger.validate(cert, rb)
     if "ui" not in r or not r["ui"][0]:
         return (False, "ui-chain")
-    if r["ui"][2] is None:
-        return (False, "ui-tweak")
+    if r["ui"][2] is None or len(bytes.fromhex(r["ui"][2])) != 32:
+        return (False, "ui-tweak")        # the UI hash the tool vouches for is a 32-byte hash
     ui = bytes.fromhex(r["ui"][1])
     m = UI_HEADER.match(ui)
     if m is None:
@@ -89,7 +89,7 @@ def ledger(cert_doc, keys_doc, root_hex):
         return (False, "ui-key")
     if "signer" not in r or not r["signer"][0]:
         return (False, "signer-chain")
-    if r["signer"][2] is None:
+    if r["signer"][2] is None or len(bytes.fromhex(r["signer"][2])) != 32:
         return (False, "signer-tweak")
     sm = bytes.fromhex(r["signer"][1])
     kh = keys_hash(keys)
